@@ -61,7 +61,9 @@ def addTarget (G : Graph) : Nat → KSt → Nat → KSt
     else
       let s1 : KSt := { s with keep := t :: s.keep }
       let s2 := addDeps (addTarget G fuel) (G.decl t) s1
-      addDeps (addTarget G fuel) (G.res t) s2
+      let s3 := addDeps (addTarget G fuel) (G.res t) s2
+      -- if target.Label.HasParent() { addTarget(graph, m, graph.Target(target.Label.Parent())) }   (nil when not a target)
+      if G.hasParent t && G.nodes.contains (G.pl t) then addTarget G fuel s3 (G.pl t) else s3
 
 /-- `publicDependencies(graph, target)`; `none` = recursion bound reached (the Go code has no visited set: it
 does not terminate on a dependency cycle inside one rule) -/
